@@ -40,6 +40,8 @@ def drive(sc):
     designs = [samples, samples2]
     P = len(samples)
 
+    zero_weight = (sc["x"] + sc["mag"]) % 2 == 0
+
     def gradient_section():
         return {"number_of_perturbations": P, "samplers": [0, 1, 0],
                 "perturbation_magnitudes": [v["mag"] / 4.0 if v["ptype"] == "abs" else v["fnum"] / v["fden"] for v in vs],
@@ -48,7 +50,9 @@ def drive(sc):
     cfg = {
         "variables": {"initial_values": [q2f(v["x"]) for v in vs], "lower_bounds": [q2f(v["lb"]) for v in vs],
                       "upper_bounds": [q2f(v["ub"]) for v in vs]},
-        "realizations": {"weights": [1.0, 1.0]},
+        # (every second scenario: the second realization has weight zero and the gradient is requested separately from the
+        #  functions - its perturbed vectors are evaluated and reported all the same)
+        "realizations": {"weights": [1.0, 0.0] if zero_weight else [1.0, 1.0]},
         "gradient": gradient_section(),
         "samplers": [{"method": "rvdesign/design", "shared": True}, {"method": "rvdesign/design", "shared": False}],
     }
@@ -80,7 +84,12 @@ def drive(sc):
     # the judged evaluation is the second gradient evaluation of this evaluator (the first one at another point)
     ee.calculate(x_user * 0.5, compute_functions=True, compute_gradients=True)
     rows.clear()
-    res = ee.calculate(x_user, compute_functions=True, compute_gradients=True)
+    if zero_weight:
+        ee.calculate(x_user, compute_functions=True, compute_gradients=False)
+        rows.clear()
+        res = ee.calculate(x_user, compute_functions=False, compute_gradients=True)
+    else:
+        res = ee.calculate(x_user, compute_functions=True, compute_gradients=True)
     trace = events(next(r for r in res if isinstance(r, GradientResults)), False)
     # the same with a variable transform (dyadic scales, offsets in units of 1/4): what the evaluator receives and what is
     # reported in the user domain must still be x + magnitude x sample, post-processed at the USER's bounds
